@@ -609,11 +609,94 @@ def _position(plog, ys, i):
     return tag
 
 
-check_case = e1common.make_check(oracle)
+_check_plain = e1common.make_check(oracle)
+
+
+# ---- pause family: a status created before a pause that fails while paused / after resume must still reach the plan
+
+
+def pause_family_cases():
+    from ..engine.planlang import M, SEQ
+
+    for op, dev in (("set", "m1"), ("trigger", "d1")):
+        for dt in (0.3, 0.8):
+            for pause_kind in ("msg", "inj", "defer_msg"):
+                for handled in (False, True):
+                    first = M("set", "m1", 1.0, group="g") if op == "set" else M("trigger", "d1", group="g")
+                    wait = M("wait", None, group="g")
+                    if handled:
+                        wait = ["try", wait, [["FailedStatus", "swallow", M("null", None, "handled")]], None]
+                    nodes = [M("open_run"), M("checkpoint"), first, M("checkpoint"), M("null", None, "a")]
+                    if pause_kind == "msg":
+                        nodes.append(M("pause"))
+                    elif pause_kind == "defer_msg":
+                        nodes += [M("pause", None, defer=True), M("checkpoint")]
+                    nodes += [M("sleep", None, 0.1), M("null", None, "b"), wait, M("null", None, "after-wait"), M("close_run")]
+                    stages = [{"do": "call"}, {"do": "resume"}, {"do": "resume"}]
+                    if pause_kind == "inj":
+                        stages[0]["inj"] = [{"at_msg": 4, "plus": 1, "do": "pause"}]
+                    yield {
+                        "name": f"pausefam|{op}|{pause_kind}|dt{dt}|{'handled' if handled else 'unhandled'}",
+                        "family": "pause",
+                        "plan": SEQ(*nodes),
+                        "devices": corpus.DEV_A,
+                        "faults": [{"dev": dev, "op": op, "n": 1, "kind": "status_fail", "dt": dt}],
+                        "stages": stages,
+                        "handled": handled,
+                    }
+
+
+def _check_pause_family(case):
+    from bluesky.utils import FailedStatus
+
+    from ..core import Result
+    from ..engine.devices import DeviceError
+    from ..engine.harness import run_case
+
+    obs = run_case(case)
+    res = Result(klass="pausefam")
+    F = lambda **kw: dict(e1common.features(case, obs), family="pause", **kw)  # noqa: E731
+    if obs.stuck:
+        res.classes.append("stuck(C07)")
+        return res
+    paused = any(s_[0] == "paused" for s_ in obs.states)
+    res.nontrivial = paused
+    if not paused:
+        res.classes.append("pausefam:no_pause")
+        return res
+    ys = obs.plog.yields
+    thrown = [(y["i"], y["thrown"]) for y in ys if isinstance(y.get("thrown"), FailedStatus)]
+    wait_idx = next((y["i"] for y in ys if y["msg"].command == "wait"), None)
+    ok = [i for i, e in thrown if isinstance(e.__cause__, DeviceError) and e.__cause__ in obs.world.raised]
+    if not ok:
+        res.fail(
+            "failed_status_lost_across_pause",
+            f"the status of {case['faults'][0]['dev']}.{case['faults'][0]['op']} failed (fault plan) around a pause/resume but no FailedStatus "
+            f"was thrown into the plan (exceptions thrown: {[(i, type(y.get('thrown')).__name__) for i, y in enumerate(ys) if 'thrown' in y]})",
+            **F(),
+        )
+        return res
+    if wait_idx is not None and min(ok) > wait_idx:
+        res.fail("failed_status_after_its_wait", f"FailedStatus thrown at yield {min(ok)}, after the wait on its group (yield {wait_idx})", **F())
+    last = [c for c in obs.calls if c.get("outcome") in ("return", "raise") and c["do"] in ("call", "resume")][-1]
+    if case.get("handled"):
+        if last["outcome"] != "return":
+            res.fail("handled_failure_ended_call", f"plan handled the FailedStatus but {last['do']}() raised {last.get('exc')!r}", **F())
+    else:
+        if not (last["outcome"] == "raise" and isinstance(last.get("exc"), FailedStatus)):
+            res.fail("unhandled_failure_not_raised", f"plan did not handle the FailedStatus but {last['do']}() -> {last['outcome']} {last.get('exc')!r}", **F())
+    return res
+
+
+def check_case(case):
+    if case.get("family") == "pause":
+        return _check_pause_family(case)
+    return _check_plain(case)
 
 
 def run(ctx):
-    names = corpus.corpus_names(ctx.tier)
+    # plans with in-plan pause messages end RE(plan) with RunEngineInterrupted: not this sweep's single-call domain
+    names = [n for n in corpus.corpus_names(ctx.tier) if not n.startswith(("pause_msg", "defer_msg"))]
     cases = list(corpus_cases(names, dts=ctx.pick((0.0, 0.3), (0.0, 0.02, 0.3))))
     total = len(cases)
     if ctx.quick:
@@ -622,6 +705,7 @@ def run(ctx):
     else:
         ctx.bound = "every single fault (device call x raise / status_fail dt 0, 0.02, 0.3) of every corpus plan x wrapping variant"
         ctx.exhaustive = True
+    cases += list(pause_family_cases())
     ctx.sweep(cases, check_case)
     ctx.extra["sweep_cases"] = len(cases)
     ctx.hyp(strategy, check_case, max_examples=ctx.pick(1500, 30000), tag="c12")
